@@ -530,7 +530,9 @@ func C13(c *core.Ctx, replay string) {
 				}
 				var ob rangeObs
 				if resp.Err != nil {
-					if ctl := GetObjectVersion(vcl, "rngv", "vk", vids[v.Size]); ctl.Err != nil || ctl.Status != 200 {
+					// (control: the gateway still serves the key's current version; a read by version
+					// id that is never answered properly is then an observation of its own)
+					if ctl := GetObject(vcl, "rngv", "vk"); ctl.Err != nil || ctl.Status != 200 {
 						c.Inconclusive("GET by version failed: %v (control: %v)", resp.Err, ctl)
 						venv.Close()
 						return
